@@ -19,14 +19,17 @@ from .datatypes import Quantity, Coordinate, Ref, Bin, Uri, \
 from .version import LATEST_VER, VER_3_0
 from .zoneinfo import timezone_name
 
-URI_META = re.compile(r'([\\`\u0080-\uffff])')
-STR_META = re.compile(r'([\\"\$\u0080-\uffff])')
+# Characters that need escaping: the delimiters, everything from U+0080 up,
+# and the control characters that have no short escape in STR_SUB (the reader
+# accepts no raw control character).
+URI_META = re.compile(r'([\\`\u0080-\uffff\x00-\x07\x0b\x0e-\x1f])')
+STR_META = re.compile(r'([\\"\$\u0080-\uffff\x00-\x07\x0b\x0e-\x1f])')
 
 
 def str_sub(match):
     c = match.group(0)
     o = ord(c)
-    if o >= 0x0080:
+    if (o >= 0x0080) or (o < 0x0020):
         # Unicode
         return '\\u%04x' % o
     elif c in '\\"$':
@@ -36,7 +39,7 @@ def str_sub(match):
 def uri_sub(match):
     c = match.group(0)
     o = ord(c)
-    if o >= 0x80:
+    if (o >= 0x80) or (o < 0x20):
         # Unicode
         return '\\u%04x' % o
     elif c in '\\`':
